@@ -298,44 +298,48 @@ Lemma parse_tokens_eq : forall ts,
 Proof. reflexivity. Qed.
 
 (* [fuel_consumed] is the least sufficient fuel *)
-Lemma least_fuel_spec : forall b f c ts n,
-  least_fuel_from b f c ts = Some n ->
-  run n c ts <> PFuel /\ f <= n /\ (forall m, f <= m -> m < n -> run m c ts = PFuel).
+Lemma bisect_spec : forall n lo hi c ts,
+  lo < hi -> hi - lo <= S n -> run lo c ts = PFuel -> run hi c ts <> PFuel ->
+  let r := bisect n lo hi c ts in
+  lo < r /\ r <= hi /\ run r c ts <> PFuel /\ run (r - 1) c ts = PFuel.
 Proof.
-  induction b as [|b IH]; intros f c ts n H; cbn in H; [discriminate|].
-  destruct (run f c ts) eqn:E.
-  - inversion H; subst. rewrite E. repeat split; [discriminate | lia | intros; lia].
-  - inversion H; subst. rewrite E. repeat split; [discriminate | lia | intros; lia].
-  - apply IH in H. destruct H as [H1 [H2 H3]]. repeat split; [exact H1 | lia |].
-    intros m Hm1 Hm2. destruct (Nat.eq_dec m f) as [->|Q]; [exact E|]. apply H3; lia.
+  induction n as [|n IH]; intros lo hi c ts Hlt Hn Hlo Hhi; cbn [bisect].
+  - replace (hi - 1) with lo by lia. repeat split; try assumption; lia.
+  - destruct (Nat.leb_spec (hi - lo) 1) as [L|L].
+    + replace (hi - 1) with lo by lia. repeat split; try assumption; lia.
+    + assert (D1 : 1 <= (hi - lo) / 2) by (apply Nat.div_le_lower_bound; lia).
+      assert (D2 : (hi - lo) / 2 < hi - lo) by (apply Nat.div_lt; lia).
+      cbv zeta. set (mid := lo + (hi - lo) / 2) in *.
+      destruct (run mid c ts) eqn:E; cbn [is_fuel].
+      * assert (Q : run mid c ts <> PFuel) by (rewrite E; discriminate).
+        destruct (IH lo mid c ts) as [A1 [A2 [A3 A4]]]; try assumption; try (unfold mid; lia).
+        repeat split; try assumption. unfold mid in *; lia.
+      * assert (Q : run mid c ts <> PFuel) by (rewrite E; discriminate).
+        destruct (IH lo mid c ts) as [A1 [A2 [A3 A4]]]; try assumption; try (unfold mid; lia).
+        repeat split; try assumption. unfold mid in *; lia.
+      * destruct (IH mid hi c ts) as [A1 [A2 [A3 A4]]]; try assumption; try (unfold mid; lia).
+        repeat split; try assumption. unfold mid in *; lia.
 Qed.
 
-Lemma least_fuel_found : forall b f c ts,
-  run (f + b) c ts <> PFuel -> b <> 0 \/ run f c ts <> PFuel ->
-  least_fuel_from (S b) f c ts <> None.
-Proof.
-  induction b as [|b IH]; intros f c ts H H0.
-  - cbn. rewrite Nat.add_0_r in H. destruct (run f c ts); try discriminate. contradiction.
-  - cbn [least_fuel_from]. destruct (run f c ts) eqn:E; try discriminate.
-    apply IH.
-    + replace (S f + b) with (f + S b) by lia. exact H.
-    + destruct b; [right|left; discriminate].
-      replace (S f) with (f + 1) by lia. exact H.
-Qed.
-
-Theorem fuel_consumed_spec : forall ts, exists n,
-  fuel_consumed ts = Some n /\ n <= fuel_for CExpression ts /\
+Theorem fuel_consumed_spec : forall ts,
+  let n := fuel_consumed ts in
+  1 <= n /\ n <= fuel_for CExpression ts /\
   run n CExpression ts <> PFuel /\ (forall m, m < n -> run m CExpression ts = PFuel).
 Proof.
-  intros ts. unfold fuel_consumed.
-  destruct (least_fuel_from (S (fuel_for CExpression ts)) 0 CExpression ts) as [n|] eqn:E.
-  - exists n. pose proof (least_fuel_spec _ _ _ _ _ E) as [H1 [_ H3]].
-    repeat split; try assumption.
-    + destruct (Nat.le_gt_cases n (fuel_for CExpression ts)) as [L|L]; [exact L|].
-      exfalso. apply (run_total (fuel_for CExpression ts) CExpression ts (le_n _)).
-      apply H3; lia.
-    + intros. apply H3; lia.
-  - exfalso. revert E. apply least_fuel_found.
-    + apply run_total. cbn. lia.
-    + left. unfold fuel_for. lia.
+  intros ts. cbv zeta. unfold fuel_consumed.
+  destruct (bisect_spec (fuel_for CExpression ts) 0 (fuel_for CExpression ts) CExpression ts)
+    as [A1 [A2 [A3 A4]]].
+  - unfold fuel_for. lia.
+  - lia.
+  - reflexivity.
+  - apply run_total. lia.
+  - set (n := bisect (fuel_for CExpression ts) 0 (fuel_for CExpression ts) CExpression ts) in *.
+    repeat split; try assumption; try lia.
+    intros m Hm.
+    assert (Hle : m <= n - 1) by lia.
+    destruct (run m CExpression ts) eqn:E; try reflexivity; exfalso.
+    + assert (Q : run m CExpression ts <> PFuel) by (rewrite E; discriminate).
+      pose proof (run_mono m (n - 1) CExpression ts _ Hle eq_refl Q) as R. congruence.
+    + assert (Q : run m CExpression ts <> PFuel) by (rewrite E; discriminate).
+      pose proof (run_mono m (n - 1) CExpression ts _ Hle eq_refl Q) as R. congruence.
 Qed.
